@@ -143,6 +143,9 @@ class ShardsList(BaseModel):
         if ".." in v.parts:
             raise ValueError("A .. is present in the path which could allow "
                              "directory traversal above `dataset_root_path`.")
+        if v.is_absolute():
+            raise ValueError("The path is absolute which could allow access "
+                             "outside of `dataset_root_path`.")
         return v
 
     def write_config(self, dataset_root_path: Path,
